@@ -500,7 +500,10 @@ def main():
             for idx in pairwise(n, rng)[:10 if n != 'SchemeChooser' else 6]:
                 run_points.append((n, idx))
     else:
-        pool_names = [n for n in names]
+        import importlib.util
+        have_scipy = importlib.util.find_spec('scipy') is not None
+        # ISPHScheme's pressure solve imports scipy at run time
+        pool_names = [n for n in names if have_scipy or n != 'ISPHScheme']
         rng.shuffle(pool_names)
         for n in pool_names[:3]:
             run_points.append((n, rng.choice(stratified(n, rng, 1, 0))))
